@@ -17,6 +17,8 @@ import (
 //   ovf-pub  PUB send queue shorter than the burst: the same, plus per-socket consistency
 //   q0       contexts with ReadQLen 0 (or 1-2, overflowing), unread or with a Recv loop: the other
 //            contexts of the socket are exact, the short ones deliver a subsequence
+//   sub-redial  dialing subscribers lose the connection (pipe dropped / publisher restarted): exactly once after
+//   pub-device  PUB -> mangos.Device(xsub, xpub) chain -> SUB: exact stream behind the forwarders (redial_test.go)
 
 func TestMain(m *testing.M) { hx.Main(m) }
 
@@ -97,9 +99,28 @@ func TestC06(t *testing.T) {
 		sp.Steps = 2 + rnd.Intn(3)
 		cases = append(cases, mon.CaseSpec{Name: "sub-short-queue-neighbour", Spec: sp})
 	}
+	// Subscribers that dialed lose their connection (pipe dropped by the publisher, or publisher
+	// restarted at the same address) 1-3 times: exactly-once, in-order delivery after every redial.
+	for i := 0; i < r.Pick(48, 1500); i++ {
+		sp := spec{Mode: "redial", Tr: pickTr(), NSub: 1 + rnd.Intn(3), NCtx: 1 + rnd.Intn(2), RawPub: rnd.Intn(3) == 0,
+			Rounds: 1 + rnd.Intn(3), Restart: rnd.Intn(2) == 0}
+		sp.XSub = rnd.Intn(sp.NSub+1) / 2
+		cases = append(cases, mon.CaseSpec{Name: "sub-redial", Spec: sp})
+	}
+	// PUB -> chain of mangos.Device(xsub, xpub) forwarders -> SUB.
+	for i := 0; i < r.Pick(40, 1200); i++ {
+		sp := spec{Mode: "device", Tr: pickTr(), NPub: 1 + rnd.Intn(2), NSub: 1 + rnd.Intn(3), NCtx: 1 + rnd.Intn(2), RawPub: rnd.Intn(3) == 0,
+			Depth: 1 + rnd.Intn(2), DevFirst: rnd.Intn(2) == 0, Steps: 1 + rnd.Intn(4)}
+		sp.XSub = rnd.Intn(sp.NSub+1) / 2
+		cases = append(cases, mon.CaseSpec{Name: "pub-device", Spec: sp})
+	}
 	r.Run(cases, func(c *mon.Case) {
 		sp := c.Spec.(spec)
 		switch sp.Mode {
+		case "redial":
+			runRedial(c, sp)
+		case "device":
+			runDevice(c, sp)
 		case "q0":
 			runQ0(c, sp)
 		case "pubresize":
